@@ -107,12 +107,25 @@ PolyPts(p) == { [ j \in DOMAIN p.cols |-> x[p.cols[j].id] ] :
 ArgMax(w, P) == { x \in P : \A y \in P : Score(w, y) <= Score(w, x) }
 
 \* the specified configurator: structure from the recipe, default priorities from the structure
-SpecCols(n) == SetToSeq({ m \in Flat(n) : m.id # n.id })
+\* one column per id (the same definition may occur under several classes, e.g. the "at least one" half of an Xor and an Any)
+SpecCols(n) == SetToSeq({ (CHOOSE m \in Flat(n) : m.id = i) : i \in Ids(n) \ {n.id} })
+PrioConsistent(n) == \A x, y \in Comps(n) : x.id = y.id => x.prio = y.prio
 SpecPoly(n) == LET cs == SpecCols(n)
                    cols == [ j \in DOMAIN cs |-> [id |-> cs[j].id, lo |-> cs[j].lo, hi |-> cs[j].hi] ]
                    rs == SetToSeq(Rows(n, TRUE))
                    rows == [ i \in DOMAIN rs |-> [b |-> rs[i].b, a |-> [ j \in DOMAIN cols |-> IF cols[j].id \in DOMAIN rs[i].c THEN rs[i].c[cols[j].id] ELSE 0 ]] ]
                IN [rows |-> rows, cols |-> cols, dpv |-> [ j \in DOMAIN cs |-> IF IsAtom(cs[j]) THEN -1 ELSE cs[j].prio ]]
+\* a structural key of a node that does not mention generated ids (the real generated ids are sha digests, the specified ones are
+\* not): leaves and explicitly named nodes by id, generated nodes by sign, value and the set of their children's keys
+RECURSIVE NodeKey(_)
+NodeKey(n) == IF IsAtom(n) THEN "a:" \o n.id
+              ELSE IF ~n.gen THEN "e:" \o n.id
+              ELSE "g(" \o ToString(n.sign) \o "," \o ToString(n.value) \o "," \o ToString({ NodeKey(n.kids[i]) : i \in DOMAIN n.kids }) \o ")"
+\* the default priority every column must carry: -1, except -2 on the non-default branch of a defaulted Any/Xor, as specified by
+\* the recipe (matched structurally; a column whose node has no structural counterpart in the specified configurator is not judged)
+DpvExpected(m, spec, cols, dpv) ==
+  \A j \in DOMAIN cols : \A nd \in { x \in Flat(m) : x.id = cols[j].id } :
+     \A sx \in { x \in Flat(spec) : NodeKey(x) = NodeKey(nd) } : dpv[j] = (IF IsAtom(sx) THEN -1 ELSE sx.prio)
 \* leaf parts (as functions id -> value) of a set of points of polyhedron p
 LeafParts(p, P, leafIds) == { [ i \in leafIds |-> x[CHOOSE j \in DOMAIN p.cols : p.cols[j].id = i] ] : x \in P }
 
@@ -132,10 +145,12 @@ EvSelect(e) ==
       called == e.called
       lids == LeafIds(m)
       spec == SpecPoly(Mk(e.recipe))
-  IN IF e.solver = "raise" THEN QFail("raises_infeasible", e.exc = "InfeasibleError")
+  IN IF ~(~IsAtom(m) /\ WellDefined(m) /\ NoByRef(m) /\ PrioConsistent(m)) THEN {"outside_domain"}
+     ELSE IF e.solver = "raise" THEN QFail("raises_infeasible", e.exc = "InfeasibleError")
      ELSE QFail("no_exception", e.exc = "")
      \cup (IF e.exc # "" \/ ~called THEN {} ELSE
            QFail("poly_is_own", rc.rows = e.direct.rows /\ rc.cols = e.direct.cols /\ rc.dpv = e.direct.dpv)
+           \cup QFail("dpv_expected", (e.spec_ok /\ Len(rc.dpv) = Len(rc.cols)) => DpvExpected(m, Mk(e.recipe), rc.cols, rc.dpv))
            \cup QFail("objective_count", Len(rc.objectives) = Len(e.prios) /\ \A k \in DOMAIN rc.objectives : Len(rc.objectives[k]) = Len(rc.cols))
            \cup (IF Len(rc.objectives) # Len(e.prios) \/ \E k \in DOMAIN rc.objectives : Len(rc.objectives[k]) # Len(rc.cols) THEN {} ELSE
                  QFail("ranks", e.enum => \A k \in DOMAIN e.prios :
